@@ -11,6 +11,8 @@
 //! * mode "render": non-streaming `Response` values (errors, tables, scalar arrays, lines) through
 //!   `Renderer::render` of the three renderers.
 //! * mode "e2e":    a small real engine; every query is dispatched once per renderer.
+//! * mode "http":   the real HTTP front end of this process (config.output_format = json | arrow | unix)
+//!   answers every command over a TCP connection; HTTP status, content type and decoded body are printed.
 //!
 //! The two response writers are *private to the crate* as far as their input is concerned
 //! (`QueryBatchStream::new` is pub(crate)), so the real source files are compiled into this
@@ -673,6 +675,135 @@ async fn mode_e2e(job: &Value, inp: &PathBuf, out: &mut std::fs::File) -> i32 {
     0
 }
 
+// ------------------------------------------------------------------ http mode
+/// One raw HTTP/1.1 POST /command against the real HTTP front end of this process.
+async fn http_post(addr: &str, body: &str) -> Result<(u16, String, Vec<u8>), String> {
+    use tokio::io::{AsyncReadExt, AsyncWriteExt};
+    let mut s = tokio::net::TcpStream::connect(addr).await.map_err(|e| format!("connect: {e}"))?;
+    let req = format!(
+        "POST /command HTTP/1.1\r\nHost: {addr}\r\nAuthorization: Bearer verif-token\r\nContent-Type: text/plain\r\nContent-Length: {}\r\nConnection: close\r\n\r\n",
+        body.as_bytes().len()
+    );
+    s.write_all(req.as_bytes()).await.map_err(|e| format!("write: {e}"))?;
+    s.write_all(body.as_bytes()).await.map_err(|e| format!("write: {e}"))?;
+    let mut buf = Vec::new();
+    s.read_to_end(&mut buf).await.map_err(|e| format!("read: {e}"))?;
+    let pos = buf.windows(4).position(|w| w == b"\r\n\r\n").ok_or("no header end")?;
+    let head = String::from_utf8_lossy(&buf[..pos]).to_string();
+    let mut lines = head.split("\r\n");
+    let status = lines
+        .next()
+        .and_then(|l| l.split(' ').nth(1))
+        .and_then(|c| c.parse::<u16>().ok())
+        .ok_or("no status line")?;
+    let mut ctype = String::new();
+    let mut chunked = false;
+    for l in lines {
+        let ll = l.to_ascii_lowercase();
+        if let Some(v) = ll.strip_prefix("content-type:") {
+            ctype = v.trim().to_string();
+        }
+        if ll.starts_with("transfer-encoding:") && ll.contains("chunked") {
+            chunked = true;
+        }
+    }
+    let mut body = buf[pos + 4..].to_vec();
+    if chunked {
+        let mut out = Vec::new();
+        let mut i = 0usize;
+        loop {
+            let Some(e) = body[i..].windows(2).position(|w| w == b"\r\n") else { break };
+            let n = usize::from_str_radix(String::from_utf8_lossy(&body[i..i + e]).trim(), 16).unwrap_or(0);
+            i += e + 2;
+            if n == 0 || i + n > body.len() {
+                break;
+            }
+            out.extend_from_slice(&body[i..i + n]);
+            i += n + 2;
+        }
+        body = out;
+    }
+    Ok((status, ctype, body))
+}
+
+async fn mode_http(job: &Value, inp: &PathBuf, out: &mut std::fs::File) -> i32 {
+    use snel_db::frontend::context::FrontendContext;
+    use snel_db::frontend::http::listener::run_http_server;
+    use snel_db::frontend::server_state::ServerState;
+    use snel_db::shared::config::CONFIG;
+    let eng = Arc::new(Engine::open(false).await);
+    for st in job["setup"].as_array().cloned().unwrap_or_default() {
+        let text = st.as_str().unwrap_or("");
+        if text == "@flush_wait" {
+            let _ = eng.sm.wait_for_flush_completion().await;
+            continue;
+        }
+        let v = dispatch_with(&eng, text, "json", Arc::new(JsonRenderer)).await;
+        if v["status"].as_u64() != Some(200) {
+            emit(out, json!({"id": "setup", "text": text, "json": v}));
+        }
+    }
+    let ctx = Arc::new(FrontendContext {
+        registry: Arc::clone(&eng.registry),
+        shard_manager: Arc::clone(&eng.sm),
+        server_state: Arc::new(ServerState::new(Arc::clone(&eng.sm), CONFIG.server.backpressure_threshold)),
+        auth_manager: None,
+    });
+    let ctx2 = Arc::clone(&ctx);
+    let server = tokio::spawn(async move { run_http_server(ctx2).await.map_err(|e| e.to_string()) });
+    let addr = CONFIG.server.http_addr.clone();
+    let mut up = false;
+    for _ in 0..200 {
+        if tokio::net::TcpStream::connect(&addr).await.is_ok() {
+            up = true;
+            break;
+        }
+        if server.is_finished() {
+            break;
+        }
+        tokio::time::sleep(std::time::Duration::from_millis(25)).await;
+    }
+    if !up {
+        eprintln!("http server did not come up on {addr}");
+        return 2;
+    }
+    let fmt = CONFIG.server.output_format.clone();
+    let dec_name = match fmt.as_str() {
+        "json" => "json",
+        "arrow" => "arrow",
+        _ => "unix",
+    };
+    let f = std::io::BufReader::new(std::fs::File::open(inp).expect("open in"));
+    for line in f.lines() {
+        let line = line.unwrap();
+        if line.trim().is_empty() {
+            continue;
+        }
+        let q: Value = serde_json::from_str(&line).expect("query json");
+        let text = q["text"].as_str().unwrap_or("");
+        let mut o = json!({"id": q["id"].clone(), "text": text, "format": fmt});
+        match tokio::time::timeout(std::time::Duration::from_secs(60), http_post(&addr, text)).await {
+            Err(_) => o["outcome"] = json!("timeout"),
+            Ok(Err(e)) => {
+                o["outcome"] = json!("http_error");
+                o["detail"] = json!(e);
+            }
+            Ok(Ok((status, ctype, body))) => {
+                o["outcome"] = json!("answered");
+                o["http_status"] = json!(status);
+                o["content_type"] = json!(ctype);
+                let mut v = decode_for(dec_name, &body).to_json();
+                v["outcome"] = json!("written");
+                v["nbytes"] = json!(body.len());
+                o["body"] = v;
+            }
+        }
+        emit(out, o);
+    }
+    ctx.server_state.signal_shutdown();
+    0
+}
+
 fn emit(out: &mut std::fs::File, v: Value) {
     let mut s = serde_json::to_string(&v).unwrap();
     s.push('\n');
@@ -691,6 +822,14 @@ fn main() {
         assert!(toml.contains(anchor), "config anchor");
         std::fs::write(&p, toml.replace(anchor, &format!("{anchor}streaming_batch_size = 0\n"))).unwrap();
     }
+    if let Some(fmt) = job["config"].get("output_format").and_then(|f| f.as_str()) {
+        // install_config always writes output_format = "json"
+        let p = root.join("config.toml");
+        let toml = std::fs::read_to_string(&p).unwrap();
+        let anchor = "output_format = \"json\"\n";
+        assert!(toml.contains(anchor), "config anchor");
+        std::fs::write(&p, toml.replace(anchor, &format!("output_format = \"{fmt}\"\n"))).unwrap();
+    }
     let out_path = job["out"].as_str().expect("job.out").to_string();
     let inp = PathBuf::from(job["in"].as_str().expect("job.in"));
     let mut out = std::fs::OpenOptions::new().create(true).write(true).truncate(true).open(&out_path).unwrap();
@@ -702,6 +841,7 @@ fn main() {
         "cases" => rt.block_on(mode_cases(&inp, &mut out)),
         "render" => mode_render(&inp, &mut out),
         "e2e" => rt.block_on(mode_e2e(&job, &inp, &mut out)),
+        "http" => rt.block_on(mode_http(&job, &inp, &mut out)),
         o => {
             eprintln!("unknown mode {o}");
             2
